@@ -109,6 +109,11 @@ Theorem C11_rule_based_sufficient_x86 : forall u : xunwinder,
 Proof. exact all_static_x86. Qed.
 Print Assumptions C11_rule_based_sufficient_x86.
 
+Theorem C11_rule_based_sufficient_a64 : forall u : aunwinder,
+  (forall md, In md (mods _ u) -> module_rule_based_a64 md) -> all_static arule amdata cb_static_a64 u.
+Proof. exact all_static_a64. Qed.
+Print Assumptions C11_rule_based_sufficient_a64.
+
 Example C11_rule_based_dwarf_example :
   let f := mkfde 0x1000 0x40 [(0, mkrow (CfaRegOff DW_RSP 8) RSameValue (ROffset (-8)));
                               (4, mkrow (CfaRegOff DW_RSP 32) RSameValue (ROffset (-8)));
